@@ -38,9 +38,17 @@ type Env struct {
 	closed bool
 }
 
+// SkipReset, while true, makes NewLight/NewFull keep akita's process-global
+// state (ID generator, tracing side tables) — used to model "rebuild and
+// restore in the same process".
+var SkipReset bool
+
 // ResetGlobals clears akita's process-global state so that executions in one
 // worker process cannot influence each other.
 func ResetGlobals() {
+	if SkipReset {
+		return
+	}
 	timing.ResetIDGenerator()
 	tracing.VerifResetRegistries()
 }
